@@ -710,6 +710,8 @@ func genC14(tier string, r *core.Rand) Plan {
 	if g.serial {
 		p.Link.BA.Seg = nil
 		p.DataLink = pipe.Plan{}
+	} else if r.Chance(0.06) {
+		p.TNC.EarlyData = true
 	}
 	return p
 }
